@@ -236,6 +236,38 @@ def rekey_multi_proposal(v, kdf):
     return n
 
 
+def init_proposal_spi(v, kdf):
+    """IKE_SA_INIT: SPIi of the exchange is the one in the HEADER.  A proposal of an IKE_SA_INIT request may carry an SPI field of its own (this implementation
+    sends one; RFC 7296 3.3.1 says size 0) - whatever it holds, the responder keys the IKE_SA with the header's SPIi and answers to it."""
+    import session
+    import wire_ref as W
+    import world as wd
+    from keysched import OracleError
+    n = 0
+    for spi in (b'', b'EVILSPI!', b'\0' * 8):
+        w = wd.World(seed=common.SEED)
+        try:
+            s = session.Session(w, kdf=kdf)
+            m = W.dec_message(bytes(w.acquire('A')))
+            pl = [dict(p, proposals=[dict(q, spi=spi) for q in p['proposals']]) if p['t'] == W.SA else p for p in m['payloads']]
+            req = W.enc_message({'spi_i': m['spi_i'], 'spi_r': b'\0' * 8, 'xchg': 34, 'response': False, 'initiator': True, 'mid': 0}, pl)
+            res = w.dispatch('B', req, 'A')
+            n += 1
+            if res is None or W.dec_header(bytes(res))['spi_i'] != m['spi_i']:
+                v.violation(f'IKE_SA_INIT request whose proposal carries the SPI {spi!r}: the response is not addressed to the SPIi of the header', {},
+                            signature={'component': 'init-spi:header'})
+                continue
+            s.oracle.exchange(bytes(req), bytes(res), 'A', 'B')
+            s.oracle.check_ike_keyring(w.sas('B')[0])
+        except OracleError as ex:
+            v.violation(f'IKE_SA_INIT request whose proposal carries the SPI {spi!r}: {ex}', {}, signature={'component': 'init-spi:' + ex.kind})
+        except wd.Escape as ex:
+            v.violation(f'IKE_SA_INIT request whose proposal carries an SPI: {ex}', {}, signature={'component': 'init-spi:escape'})
+        finally:
+            w.close()
+    return n
+
+
 def run(tier, replay=None):
     v = common.Verdict('C04', tier, 'exploration')
     if replay:
@@ -249,6 +281,7 @@ def run(tier, replay=None):
     n_nonce = nonce_lengths(v, kdf)
     n_lz, steered = leading_zero_sessions(v, kdf, tier)
     v.coverage['rekey_with_two_proposals'] = rekey_multi_proposal(v, kdf)
+    v.coverage['init_proposals_with_an_spi'] = init_proposal_spi(v, kdf)
     # interleavings: crossing CREATE_CHILD_SA exchanges with PFS (each end answers the other's request while its own is outstanding) and the IKE_SA rekey
     # with a retry - every kernel record and every IKE key ring of the replayed Ike.tla behaviours is compared with the plan evaluation
     from checks import ikeprop
